@@ -19,7 +19,7 @@ func propC05() Property {
 		NotDecided: "everything else in C05: delivery exactly once and in order across connection drops, engine restarts, heartbeat timing. Evidence states this verbatim; the claim is this narrow emit/accept agreement only.",
 		Rules: []RuleDef{
 			{ID: "C05-R1", Desc: "emitted infinity markers ⊆ accepted infinity markers", Min: 2, Run: c05R1},
-			{ID: "C05-R2", Desc: "tags required of a replay ⊆ tags stamped on a replay", Min: 4, Run: c05R2},
+			{ID: "C05-R2", Desc: "tags required of a replay ⊆ tags stamped on a replay", Min: 2, Run: c05R2},
 			{ID: "C05-R3", Desc: "numbering/persisting independent of the link state", Min: 3, Run: c05R3},
 			{ID: "C05-R4", Desc: "receiver advances exactly once after a gated acceptance (= C01-R2)", Min: 4, Run: c01R2},
 			{ID: "C05-R5", Desc: "what is persisted for replay is where the index says it is (= C17-R2)", Min: 3, Run: c17R2},
